@@ -87,7 +87,9 @@ Record cfg := mkCfg {
   c_alpn : list N;
   c_cid : option (list N);             (* ConnectionIDGenerator: None = nil, Some b = returns b *)
   c_store : bool;                      (* session store set *)
-  c_skip_hv : bool                     (* server: InsecureSkipVerifyHello *)
+  c_skip_hv : bool;                    (* server: InsecureSkipVerifyHello *)
+  c_key2 : N;                          (* server: key type of a SECOND certificate, issued for another name (0 = none) *)
+  c_sni : bool                         (* client: the configured server name is that other name *)
 }.
 
 (* ------------------------------------------------------------------ building a connection (config.go) *)
@@ -232,7 +234,8 @@ Record hello := mkHello {
   h_cid : option (list N);
   h_rrc : bool;
   h_ems : bool;
-  h_session : bool                     (* a session id is offered *)
+  h_session : bool;                    (* a session id is offered *)
+  h_sni : bool                         (* server_name names the server's second certificate *)
 }.
 
 Definition ems_requested (p : N) : bool := (p =? g11_ems_request) || (p =? g11_ems_require).
@@ -265,7 +268,8 @@ Definition client_hello12 (k : conn) (session : bool) : hello :=
     (c_alpn c)
     (c_cid c) cid
     (ems_requested (c_ems c))
-    session.
+    session
+    (c_sni c).
 
 (* flight13 flight1Generate (also the hello of a dual-stack client) *)
 Definition client_hello13 (k : conn) : hello :=
@@ -291,7 +295,8 @@ Definition client_hello13 (k : conn) : hello :=
     (c_alpn c)
     (c_cid c) cid
     (ems_requested (c_ems c))
-    false.
+    false
+    (c_sni c).
 
 (* ------------------------------------------------------------------ results *)
 
@@ -389,7 +394,8 @@ Record outcome := mkOut {
   o_client_cert : bool;              (* the client presented its chain *)
   o_cert_requested : bool;
   o_ch_exts : list N;
-  o_sh_exts : list N                 (* extension types of the ServerHello *)
+  o_sh_exts : list N;                (* extension types of the ServerHello *)
+  o_server_key : N                   (* key type of the certificate the server presented (0 = none) *)
 }.
 
 (* what the server puts in flight 4 / 4b (DTLS 1.2) or flight 4 (DTLS 1.3) *)
@@ -407,14 +413,24 @@ Record server_flight := mkSF {
   f_cert : bool;                      (* Certificate message present *)
   f_cert_req : bool;
   f_sh_exts : list N;
-  f_ee_exts : list N                  (* EncryptedExtensions (DTLS 1.3) *)
+  f_ee_exts : list N;                 (* EncryptedExtensions (DTLS 1.3) *)
+  f_key : N;                          (* key type of the certificate presented (0 = none) *)
+  f_alt : bool                        (* ... and it is the second certificate *)
 }.
+
+(* internal/config GetCertificate(ServerName): with two certificates the one whose name the client asked for,
+   else the first.  (HandshakeContext's suite filter asked with an EMPTY name: always the first - c_key.) *)
+Definition has_alt (s : cfg) : bool := negb (c_key s =? 0) && negb (c_key2 s =? 0).
+Definition presents_alt (s : cfg) (h : hello) : bool := h_sni h && has_alt s.
+Definition presented_key (s : cfg) (h : hello) : N := if presents_alt s h then c_key2 s else c_key s.
 
 (* ------------------------------------------------------------------ DTLS 1.2 server: flight0Parse, flight4(b)Generate *)
 
 (* [ssuites] = LocalCipherSuites after the key-type and version filters; [resumable] = the offered
    session is in the server's store *)
-Definition server12 (k : conn) (ssuites : list N) (h : hello) (resumable : bool) : res server_flight :=
+(* flight0Parse: the cipher suite, and negotiateClientHelloExtensions: what one ClientHello decides through its
+   extensions - (suite, group, extended master secret) - or the alert it is refused with *)
+Definition hello12_choices (k : conn) (ssuites : list N) (h : hello) : res (N * N * bool) :=
   let s := k_cfg k in
   do _ <- req (h_legacy h =? v12) g11_alert_protocol_version;
   (* suites the client offered that this build knows and that exist in DTLS 1.2, client order *)
@@ -427,6 +443,11 @@ Definition server12 (k : conn) (ssuites : list N) (h : hello) (resumable : bool)
               end;
   let ems := h_ems h && negb (c_ems s =? g11_ems_disable) in
   do _ <- req (negb (c_ems s =? g11_ems_require) || ems) g11_alert_insufficient_security;
+  ROk (suite, group, ems).
+
+Definition server12 (k : conn) (ssuites : list N) (h : hello) (resumable : bool) : res server_flight :=
+  let s := k_cfg k in
+  do (suite, group, ems) <- hello12_choices k ssuites h;
   let resumed := resumable && h_session h && c_store s in
   (* flight4Generate / flight4bGenerate *)
   do (profile, echo, peer_mki) <- negotiate_srtp (h_srtp h) (c_srtp s) (c_mki s);
@@ -451,15 +472,33 @@ Definition server12 (k : conn) (ssuites : list N) (h : hello) (resumable : bool)
   do _ <- (if validate_response_exts h exts then ROk tt else RAlert g11_alert_unsupported_extension);
   let cert_auth := s_auth suite =? g11_auth_certificate in
   if resumed then
-    ROk (mkSF v12 suite 0 0 ems ems_ext profile echo peer_mki proto cid rrc true false false exts [])
+    ROk (mkSF v12 suite 0 0 ems ems_ext profile echo peer_mki proto cid rrc true false false exts [] 0 false)
   else if cert_auth then
-    do _ <- req (negb (c_key s =? 0)) g11_alert_handshake_failure;        (* GetCertificate: no certificate *)
-    do sg <- of_opt (select_sig false (k_sigs k) (c_key s)) g11_alert_insufficient_security;
+    (* flight4Generate: the certificate is chosen by the client's server name *)
+    let key := presented_key s h in
+    do _ <- req (negb (key =? 0)) g11_alert_handshake_failure;            (* GetCertificate: no certificate *)
+    do sg <- of_opt (select_sig false (k_sigs k) key) g11_alert_insufficient_security;
     ROk (mkSF v12 suite group sg ems ems_ext profile echo peer_mki proto cid rrc false true
-              (negb (c_client_auth s =? g11_auth_no_client_cert)) exts [])
+              (negb (c_client_auth s =? g11_auth_no_client_cert)) exts [] key (presents_alt s h))
   else
     ROk (mkSF v12 suite (if s_ecdhe suite then group else 0) 0 ems ems_ext profile echo peer_mki proto cid rrc
-              false false false exts []).
+              false false false exts [] 0 false).
+
+(* ValidateHelloVerifyRequestResponse: the hello that echoes the cookie repeats everything before the
+   extensions, the connection_id and the use_srtp extension of the first one *)
+Definition opt_eqb {A} (eq : A -> A -> bool) (a b : option A) : bool :=
+  match a, b with Some x, Some y => eq x y | None, None => true | _, _ => false end.
+Definition hv_consistent (h1 h2 : hello) : bool :=
+  (h_legacy h1 =? h_legacy h2) && bytes_eqb (h_suites h1) (h_suites h2) && Bool.eqb (h_scsv h1) (h_scsv h2)
+  && Bool.eqb (h_session h1) (h_session h2) && opt_eqb bytes_eqb (h_cid h1) (h_cid h2)
+  && opt_eqb (fun a b => bytes_eqb (fst a) (fst b) && bytes_eqb (snd a) (snd b)) (h_srtp h1) (h_srtp h2).
+
+(* hello verification on (flight0Parse, flight2Parse): the first, cookie-less hello [h1] only has to be acceptable;
+   every choice is taken again from the hello [h2] that echoes the cookie - the one the Finished messages cover *)
+Definition server12_verified (k : conn) (ssuites : list N) (h1 h2 : hello) (resumable : bool) : res server_flight :=
+  do _ <- hello12_choices k ssuites h1;
+  do _ <- req (hv_consistent h1 h2) g11_alert_illegal_parameter;
+  server12 k ssuites h2 resumable.
 
 (* ------------------------------------------------------------------ DTLS 1.3 server: flight0Parse, flight2Parse, flight4Generate *)
 
@@ -481,9 +520,10 @@ Definition server13 (k : conn) (ssuites : list N) (h : hello) : res server_fligh
                      (if c_skip_hv s then g11_alert_illegal_parameter else g11_alert_insufficient_security);
   do _ <- req (mem group (h_shares h)) g11_alert_illegal_parameter;
   (* flight4Generate *)
-  do _ <- req (negb (c_key s =? 0)) g11_alert_handshake_failure;
+  let key := presented_key s h in
+  do _ <- req (negb (key =? 0)) g11_alert_handshake_failure;
   let common := inter (filter sig_known (h_sigs h)) (k_sigs k) in
-  do sg <- of_opt (select_sig true common (c_key s)) g11_alert_insufficient_security;
+  do sg <- of_opt (select_sig true common key) g11_alert_insufficient_security;
   do (profile, echo, peer_mki) <- negotiate_srtp (h_srtp h) (c_srtp s) (c_mki s);
   let cid := server_cid h s in
   let rrc := nonempty (match cid with Some _ => [0] | None => [] end) && mem g11_ext_rrc (h_exts h) in
@@ -493,7 +533,8 @@ Definition server13 (k : conn) (ssuites : list N) (h : hello) : res server_fligh
   (* the CertificateVerify of this flight must be encodable (MessageCertificateVerify.Marshal) *)
   if negb (sig_encodable sg) then RSilent else
   ROk (mkSF v13 suite group sg true false profile echo peer_mki 0 cid rrc false true
-            (negb (c_client_auth s =? g11_auth_no_client_cert)) exts (opt_ext (negb (profile =? 0)) g11_ext_use_srtp)).
+            (negb (c_client_auth s =? g11_auth_no_client_cert)) exts (opt_ext (negb (profile =? 0)) g11_ext_use_srtp)
+            key (presents_alt s h)).
 
 (* ------------------------------------------------------------------ client: flight3Parse .. flight5Generate *)
 
@@ -523,21 +564,30 @@ Definition client12 (ck sk : conn) (csuites : list N) (h : hello) (f : server_fl
         (if f_srtp f =? 0 then None else Some (f_srtp f, f_mki_echo f)) (c_srtp c);
   let cid := decide_cid h (f_cid_ext f) (f_rrc_ext f) in
   let ems := f_ems_ext f && negb (c_ems c =? g11_ems_disable) in
+  (* flight3Parse, extension loop: the protocol the ServerHello names must be one this side offered *)
+  do _ <- req ((f_alpn f =? 0) || mem (f_alpn f) (c_alpn c)) g11_alert_illegal_parameter;
   do _ <- req (negb (c_ems c =? g11_ems_require) || ems) g11_alert_insufficient_security;
   do _ <- req (known_suite (f_suite f) && s_supports (f_suite f) v12 && mem (f_suite f) csuites)
               g11_alert_insufficient_security;
   let out sg cs ccert :=
     mkOut v12 (f_suite f) (f_group f) sg cs ems profile mki (f_mki_peer f) (f_alpn f) cid (f_resumed f)
-          (f_cert f) ccert (f_cert_req f) (h_exts h) (f_sh_exts f) in
+          (f_cert f) ccert (f_cert_req f) (h_exts h) (f_sh_exts f) (f_key f) in
+  (* handleServerKeyExchange: an ECDHE key exchange must run on a group this side offered *)
+  let group_ok := negb (s_ecdhe (f_suite f)) || mem (f_group f) (curves12 (k_curves ck)) in
   if f_resumed f then ROk (out 0 0 false) else
   if s_auth (f_suite f) =? g11_auth_certificate then
     do _ <- req (f_cert f) g11_alert_no_certificate;
+    do _ <- req group_ok g11_alert_illegal_parameter;
     (* flight5Generate: the client's own CertificateVerify is prepared after the key exchange checks *)
     do _ <- req (mem (f_sig f) (k_sigs ck)) g11_alert_insufficient_security;
-    do _ <- req (c_skip_verify c || mem (c_chain_sig (k_cfg sk)) (cert_algs ck)) g11_alert_bad_certificate;
+    (* VerifyServerCert: the chain is for the configured name and signed with an allowed scheme *)
+    do _ <- req (c_skip_verify c || (Bool.eqb (f_alt f) (c_sni c) && mem (c_chain_sig (k_cfg sk)) (cert_algs ck)))
+                g11_alert_bad_certificate;
     do (ccert, cs) <- client_auth_sig false ck sk f;
     ROk (out (f_sig f) cs ccert)
-  else ROk (out 0 0 false).
+  else
+    do _ <- req group_ok g11_alert_illegal_parameter;
+    ROk (out 0 0 false).
 
 Definition client13 (ck sk : conn) (csuites : list N) (h : hello) (f : server_flight) : res outcome :=
   let c := k_cfg ck in
@@ -550,11 +600,12 @@ Definition client13 (ck sk : conn) (csuites : list N) (h : hello) (f : server_fl
   do (profile, mki) <- validate_srtp (h_srtp h)
         (if f_srtp f =? 0 then None else Some (f_srtp f, f_mki_echo f)) (c_srtp c);
   do _ <- req (mem (f_sig f) (k_sigs ck)) g11_alert_insufficient_security;
-  do _ <- req (c_skip_verify c || mem (c_chain_sig (k_cfg sk)) (cert_algs ck)) g11_alert_bad_certificate;
+  do _ <- req (c_skip_verify c || (Bool.eqb (f_alt f) (c_sni c) && mem (c_chain_sig (k_cfg sk)) (cert_algs ck)))
+              g11_alert_bad_certificate;
   do (ccert, cs) <- client_auth_sig true ck sk f;
   if ccert && negb (sig_encodable cs) then RSilent else
   ROk (mkOut v13 (f_suite f) (f_group f) (f_sig f) cs true profile mki (f_mki_peer f) 0 cid false true ccert
-             (f_cert_req f) (h_exts h) (f_sh_exts f)).
+             (f_cert_req f) (h_exts h) (f_sh_exts f) (f_key f)).
 
 (* the server's processing of the client's last flight (flight4Parse / protected_flight.go) *)
 Definition server_finish (is13 : bool) (sk ck : conn) (o : outcome) : res outcome :=
@@ -623,5 +674,79 @@ Definition negotiate_conn (ck sk : conn) (seeded : bool) : result :=
 Definition negotiate (c s : cfg) (seeded : bool) : option result :=
   match build true c, build false s with
   | Some ck, Some sk => Some (negotiate_conn ck sk seeded)
+  | _, _ => None
+  end.
+
+(* ------------------------------------------------------------------ sessions and the EMS policy *)
+
+(* Session{ID, Secret} carries no EMS flag: whether the master secret in force was derived with the
+   extended-master-secret construction is that of the association that STORED it when the handshake is a
+   resumption ([seed_ems]), and the negotiated flag otherwise *)
+Definition session_ems (o : outcome) (seed_ems : bool) : bool :=
+  if o_resumed o then seed_ems else o_ems o.
+
+(* ------------------------------------------------------------------ steered associations (DTLS 1.2 stacks) *)
+
+(* what an on-path party does to the FIRST, cookie-less ClientHello (no Finished covers it) and what a rogue
+   server puts in its ServerHello (ServerHelloMessageHook) *)
+Record steering := mkSteer {
+  t_ch1_groups : option (list N);      (* supported_groups replaced (when present) *)
+  t_ch1_alpn : option (list N);        (* ALPN offer replaced (when present) *)
+  t_ch1_strip_ems : bool;
+  t_ch1_strip_sni : bool;
+  t_sh_alpn : N                        (* the ServerHello names this protocol (0 = untouched) *)
+}.
+Definition no_steering : steering := mkSteer None None false false 0.
+
+Definition remove_ext (x : N) (l : list N) : list N := filter (fun y => negb (y =? x)) l.
+
+Definition steer_hello (t : steering) (h : hello) : hello :=
+  mkHello (h_legacy h) (h_suites h) (h_scsv h)
+    (let e1 := if t_ch1_strip_ems t then remove_ext g11_ext_ems (h_exts h) else h_exts h in
+     if t_ch1_strip_sni t then remove_ext g11_ext_server_name e1 else e1)
+    (h_versions h)
+    (match t_ch1_groups t with
+     | Some g => match h_groups h with Some _ => Some g | None => None end
+     | None => h_groups h
+     end)
+    (h_shares h) (h_sigs h) (h_srtp h)
+    (match t_ch1_alpn t with
+     | Some a => match h_alpn h with [] => [] | _ => a end
+     | None => h_alpn h
+     end)
+    (h_cid h) (h_rrc h)
+    (if t_ch1_strip_ems t then false else h_ems h)
+    (h_session h)
+    (if t_ch1_strip_sni t then false else h_sni h).
+
+Definition steer_flight (t : steering) (f : server_flight) : server_flight :=
+  if t_sh_alpn t =? 0 then f else
+  mkSF (f_version f) (f_suite f) (f_group f) (f_sig f) (f_ems f) (f_ems_ext f) (f_srtp f) (f_mki_echo f) (f_mki_peer f)
+       (t_sh_alpn t) (f_cid_ext f) (f_rrc_ext f) (f_resumed f) (f_cert f) (f_cert_req f)
+       (if mem g11_ext_alpn (f_sh_exts f) then f_sh_exts f else f_sh_exts f ++ [g11_ext_alpn])
+       (f_ee_exts f) (f_key f) (f_alt f).
+
+(* two DTLS 1.2-only endpoints; [hv] = hello verification on (the server does not skip the cookie exchange).
+   Without the cookie exchange the only ClientHello is covered by the Finished messages (C04): rewriting it is
+   not modelled, the steering of the hello is then ignored. *)
+Definition negotiate12_steered (ck sk : conn) (seeded hv : bool) (t : steering) : result :=
+  let c := k_cfg ck in let s := k_cfg sk in
+  let ssuites := filter_for_version v12 (filter_for_key (c_key s) (k_suites sk)) in
+  if negb (nonempty ssuites) then Silent Server else
+  let h2 := client_hello12 ck (seeded && c_store c && true) in
+  let h1 := if hv then steer_hello t h2 else h2 in
+  lift Server (if hv then server12_verified sk ssuites h1 h2 seeded else server12 sk ssuites h2 seeded) (fun f0 =>
+  let f := steer_flight t f0 in
+  (* FinalizeServerHello re-validates the hooked ServerHello against the offer *)
+  lift Server (req (validate_response_exts h2 (f_sh_exts f)) g11_alert_unsupported_extension) (fun _ =>
+  lift Client (of_opt (select_version [v12] (k_min ck) (k_max ck)) g11_alert_protocol_version) (fun _ =>
+  let csuites := filter_for_version v12 (k_suites ck) in
+  if negb (nonempty csuites) then Silent Client else
+  lift Client (client12 ck sk csuites h2 f) (fun o =>
+  lift Server (server_finish false sk ck o) Ok)))).
+
+Definition negotiate_steered (c s : cfg) (seeded hv : bool) (t : steering) : option result :=
+  match build true c, build false s with
+  | Some ck, Some sk => Some (negotiate12_steered ck sk seeded hv t)
   | _, _ => None
   end.
